@@ -861,7 +861,7 @@ class Discovery(object):
 
             # Fire callbacks if any
             if agent in self._agent_cbs:
-                for cb, oneshot in self._agent_cbs[agent]:
+                for cb, oneshot in self._agent_cbs[agent][:]:
 
                     self.logger.debug('fire agent_removed call back for %s',
                                       agent)
